@@ -4,6 +4,7 @@ CHECK = {
     "assumptions": [
         "the executor stack is assembled by the harness in the order of cmd/bb_worker/main.go (base executor writing through the batched CAS writer -> StorageFlushingBuildExecutor -> CachingBuildExecutor over the global CAS and the AC); main.go itself is not executed, and the pass-through decorators between the two (timestamps, metrics, file pool stats, cost computing, test-infrastructure-failure detection) are left out",
         "the base executor is scripted: like LocalBuildExecutor it uploads every output through the writer it was given, attaches the first upload error to the response and only references blobs whose Put was acknowledged; its response always has a non-nil Result",
+        "the status code of an injected error is drawn per fault from 12 gRPC codes (Unavailable, Internal, DeadlineExceeded, AlreadyExists, Aborted, ResourceExhausted, NotFound, PermissionDenied, Canceled without the context being cancelled, Unknown, FailedPrecondition, DataLoss): every failed back-end call counts as a failure whatever its code (an AC Put answered AlreadyExists stored nothing)",
         "a failing back-end call stores nothing (no 'written but acknowledgement lost' faults); after a context-cancellation fault every later call on that context fails with Canceled",
         "a third fault kind cancels the operation's context at a FindMissing / output Put while the back ends ignore contexts (the call, in-flight and later calls complete normally): nothing fails at the back end, so only the general oracles apply (flush success => every acknowledged blob stored; OK response / AC entry => every referenced blob stored; flush error => error status, not cached, nothing advertised)",
         "a failure of the historical-execute-response write or of the Action Cache write (both happen after a successful flush) must yield an error status and no cache entry, but is not required to clear output digests: they all exist in the CAS at that point, and the code only prunes on flush failure",
@@ -19,7 +20,7 @@ CHECK = {
     ],
 }
 META = {
-    "text": "Generated action outcomes and output sets are run through the real batched-store / storage-flushing / caching executors over fake CAS and AC back ends; for every generated scenario every fallible back-end call (FindMissing, CAS Put, AC Put) is failed once with an error, once by cancelling the context, and (FindMissing / output Put) once by cancelling the context while the back ends ignore the cancellation, so fault positions are exhaustive per scenario while scenarios are sampled. The batched store alone is additionally explored as a state machine with randomly armed faults. No proof of absence over scenarios.",
+    "text": "Generated action outcomes and output sets are run through the real batched-store / storage-flushing / caching executors over fake CAS and AC back ends; for every generated scenario every fallible back-end call (FindMissing, CAS Put, AC Put) is failed once with an error (status code drawn per fault), once by cancelling the context, and (FindMissing / output Put) once by cancelling the context while the back ends ignore the cancellation, so fault positions are exhaustive per scenario while scenarios are sampled. The batched store alone is additionally explored as a state machine with randomly armed faults. No proof of absence over scenarios.",
     "design_ref": "6/C09",
     "note": "Trusts the hand-written fake CAS/AC (digest-verifying, recording, with per-call fault plans), the scripted base executor as a stand-in for LocalBuildExecutor, and the harness' copy of the decorator order of cmd/bb_worker/main.go.",
     "technique": "per-scenario exhaustive fault enumeration inside property-based generation (rapid), plus a model-based state machine for the batched store",
